@@ -245,6 +245,9 @@ Explored(s, x) ==
   \* not explored (the outcome for the OTHER session is a race between its next command and the update):
   \* deleting or renaming a mailbox that somebody of the same user has selected
   /\ (x \in {"DELETE_extra", "RENAME_em"} /\ phase[s] # "NotAuth" => ~SelectedBySome(u, "extra"))
+  \* ... nor removing messages from a mailbox that another session of the same user has selected
+  /\ (x \in {"EXPUNGE", "UID_EXPUNGE", "MOVE", "UID_MOVE", "CLOSE"} /\ phase[s] = "Selected" /\ ~ro[s] =>
+        ~\E t \in Sessions \ {s} : user[t] = u /\ sel[t] = sel[s])
   \* not judged: a SELECT/EXAMINE that fails while another mailbox is selected (RFC 3501: deselects; gluon: keeps)
   /\ (x \in {"SELECT_extra", "EXAMINE_extra"} /\ phase[s] = "Selected" => "extra" \in boxes[u])
   \* behaviours: a heavy line only as the first line, followed by one NOOP
